@@ -755,3 +755,5 @@ M("C16", "emu-sv solver choice inverted", "kill", [(SVI, "        if self.pulser
 M("C16", "density-matrix state evolved by the state-vector stepper", "kill", [(SVI, "            stepper = EvolveDensityMatrix\n            state_type = DensityMatrix", "            stepper = EvolveStateVector\n            state_type = DensityMatrix")], "DISPATCH-sv")
 M("C01", "noiseless runs use the density-matrix solver", "kill", [(SVI, "            stepper = EvolveStateVector\n            state_type = StateVector", "            stepper = EvolveDensityMatrix\n            state_type = DensityMatrix")], "DISPATCH-sv")
 M("C16", "twin: solver chosen with a length test", "twin", [(SVI, "        if self.pulser_lindblads:\n            stepper = EvolveDensityMatrix", "        if len(data.lindblad_ops) > 0:\n            stepper = EvolveDensityMatrix")])
+M("C14", "emu-sv membership test with its arguments exchanged", "kill", [(SVI, "self._config.is_time_in_evaluation_times(t, times, tol=tolerance)", "self._config.is_time_in_evaluation_times(times, t, tol=tolerance)")], "ONCE-filter")
+M("C14", "emu-mps own-times test asks about the default times", "kill", [(IMPL, "self.config.is_time_in_evaluation_times(t, times, tol=tolerance)", "self.config.is_time_in_evaluation_times(t, self.config.default_evaluation_times, tol=tolerance)")], "ONCE-filter")
